@@ -9,8 +9,11 @@ meta.json's "checks"/"detected_by" (the confirmation fields are left as recorded
 """
 import json, os, subprocess, sys, shutil, time
 
-WT = "/tmp/wt/eval"
-EV = "/tmp/wt/eval-verif"
+# SHARD=i/n re-evaluates every n-th seed in its own scratch area (several shards can run side by side)
+SHARD = os.environ.get("SHARD", "0/1")
+SI, SN = (int(x) for x in SHARD.split("/"))
+WT = "/tmp/wt/eval" if SN == 1 else f"/tmp/wt/recheck{SI}"
+EV = WT + "-verif"
 ENV = dict(os.environ, CARGO_NET_OFFLINE="true")
 
 def run(cmd, cwd=None, timeout=7200):
@@ -28,7 +31,9 @@ os.makedirs(EV, exist_ok=True)
 run(f"rsync -a --delete --exclude .cache --exclude .git --exclude evidence --exclude replays /verif/ {EV}/")
 run(f"sed -i 's#path = \"/repo\"#path = \"{WT}\"#' {EV}/engine/Cargo.toml {EV}/engine-sr/Cargo.toml")
 lost = []
-for name in sorted(os.listdir("/verif/seeded")):
+for idx, name in enumerate(sorted(os.listdir("/verif/seeded"))):
+    if idx % SN != SI:
+        continue
     d = os.path.join("/verif/seeded", name)
     if prefixes and not any(name.startswith(p) for p in prefixes):
         continue
